@@ -105,9 +105,9 @@ class GhostDeque(E.GhostObj):
         self.foreign = 0
 
     def _interfere(self, it):
-        if self.rely and self.foreign < 1 and it.ctx.fork(2) == 1:
+        if self.rely and self.foreign < 1:
             self.foreign += 1
-            other = ("other-peer", b"inv", it.ctx.fresh_int("foreign_msg"))
+            other = ("other-peer", b"inv", -1)
             self.items.append(other)
             it.ctx.ghost.setdefault("rely_appended", []).append(other)
 
@@ -192,7 +192,7 @@ class GhostRecord(E.GhostObj):
 def node_iteration(it, args, kwargs, node):
     import bits.p2p as p2p
     peer_no, command, payload, queue_before = args[:4]
-    rely = bool(it.ctx.opts["thm"].options.get("rely"))
+    rely = bool(args[4]) if len(args) > 4 else bool(kwargs.get("interfere"))
     dq = GhostDeque(queue_before, rely)
     socks = {0: GhostSendSocket(0), 1: GhostSendSocket(1)}
     rec = GhostRecord(p2p.Node, {
